@@ -1,32 +1,49 @@
 """C20 -- Both storage backends implement the same contract.
 
 Proof      : coq/Props/C20.v -- C20_refine_s3 / C20_refine_local / C20_backends_agree (every operation
-             sequence over canonical keys; every S3 prefix; any foreign objects in the bucket),
-             C20_range_equiv / C20_range_negative_seek (every content, every seek/read program),
-             C20_retry_* / C20_s3_retry_* (every outcome script), over Gen/GenS3.v which is REGENERATED
-             from storage_backend.py / s3_consistency.py on every run (key mapping, listing Prefix,
-             prefix stripping, constructor prefix, create_storage_backend's join, not-found / CAS /
-             permanent code literals, retry defaults); the hand-modelled functions are pinned by golden
-             AST digests in translator/gen_s3.py.
+             sequence over canonical keys; every S3 prefix; any foreign objects in the bucket).  The operation
+             alphabet is write / read / exists / list / delete / size / mtime / open_file / read_file_with_etag /
+             the CAS writer, and  Open k prog = open_seekable(k) followed by ANY seek/read program on the reader it
+             returned -- one operation of the history, so it interleaves with writes, overwrites and deletes of
+             the same key on the same backend;  C20_open_after_history (open_seekable after ANY history answers
+             from the key's CURRENT content, FileNotFoundError exactly when the key holds nothing now),
+             C20_open_ranges_in_objects (every ranged GET of every open of every history names an object that
+             exists, within its size);
+             C20_range_equiv / C20_range_negative_seek / C20_seek_invalid_whence (every content, every seek/read
+             program), C20_retry_* / C20_s3_retry_* (every outcome script).
+             Regenerated from the source on every run:  Gen/GenS3.v (key mapping, listing Prefix, prefix
+             stripping, constructor prefix, create_storage_backend's join, not-found / CAS / permanent code
+             literals, retry defaults) and Gen/GenRange.v (S3RangeFile.seek / readinto / readall integer kernels,
+             open_seekable's wiring: which key the reader reads and whose get_size() it is given; translator/
+             gen_range.py fails closed when open_seekable takes the size from anywhere but a get_size() of this
+             call); the remaining hand-modelled functions are pinned by golden AST digests.
 Tie        : correspondence, real code vs Coq model (vm_compute):
                gen-kernels   _get_s3_key / list_files Prefix / rel_path stripping / __init__ prefix /
                              create_storage_backend join  vs  Gen/GenS3.v, all strings over {a,b,/} len<=4
-               backends      every S3 request issued per operation (kind, key/prefix, count) vs Model/BackendTrace.v;
+               backends      every S3 request issued per operation (kind, key/prefix, count; for an Open on the raw
+                             reader every ranged GET's first/last) vs Model/BackendTrace.v;
                              LocalStorageBackend (temp dir) and S3StorageBackend (fakes3) vs Model/Backend.v
-                             on enumerated + random op sequences over a 12-key space with sibling-prefix
-                             names; also raw-string sequences OUTSIDE the canonical domain (leading/trailing
+                             on enumerated + random op sequences over a 13-key space with sibling-prefix
+                             names, issued through ONE or TWO backend instances over the same store; also
+                             raw-string sequences OUTSIDE the canonical domain (leading/trailing
                              slashes, a key that is a directory of another, exists("dir/"), key = prefix)
-               range         S3RangeFile vs Model/Range.v: all programs up to a length bound on sizes 0,1,2,
-                             sampled programs on 1 MiB+1; bytes, positions, every Range header
+               range         S3RangeFile vs Model/Range.v (over Gen/GenRange.v): all programs up to a length bound
+                             on sizes 0,1,2, sampled programs on 1 MiB+1; bytes, positions, every Range header
                retry         real with_s3_retry (time.sleep virtualised) vs Model/Retry.v: all outcome
                              scripts of length <= 7 over {good, transient, permanent, non-retryable};
                              attempts, result, sleeps;  is_permanent_s3_error vs the model on a code list
 Oracles    : implementation only, judged by the property text (no model involved):
-               backends-differ / spec   local vs S3 vs a 6-line dict store on every in-domain sequence
+               backends-differ / spec   local vs S3 vs a dict store + a 15-line reference file on every in-domain
+                                        sequence: histories mix write / CAS write / overwrite / delete with
+                                        open_seekable + seek/read program (through the BufferedReader and on the raw
+                                        reader underneath), open_file, size, read ... on hot keys, with empty and
+                                        non-empty prefixes and leading-slash spellings, on one or two instances
+               range-not-in-object      every ranged GET an Open issues must name an existing object, within its size
                range-file               S3RangeFile and open_seekable()'s BufferedReader vs a real local file
                                         (FileIO / buffered) on the same content; every Range header in range
                retry-contract           attempts / result / sleeps of with_s3_retry judged directly; transient faults at
-                                        ANY request index of an operation (positional plans), and systematically at every
+                                        ANY request index of an operation incl. open_seekable's HEAD and ranged GETs
+                                        (positional plans), and systematically at every
                                         page of multi-page listings (3..7 keys, page size 2; within / beyond the budget;
                                         permanent errors): listing compared as a sorted LIST (duplicates count), request counts
                paged-listing (corr)     the same listings vs Model/Paged.v (retry restarts the whole listing; C20_paged_listing_*)
@@ -49,32 +66,42 @@ from harness.lib.coqio import C, Some
 LEVEL = "proof"
 THEOREMS = [
     "C20_refine_s3", "C20_refine_local", "C20_backends_agree", "C20_leading_slash_same",
-    "C20_range_equiv", "C20_range_negative_seek",
+    "C20_open_after_history", "C20_open_ranges_in_objects",
+    "C20_range_equiv", "C20_range_negative_seek", "C20_seek_invalid_whence",
     "C20_retry_masks", "C20_retry_permanent", "C20_retry_nonretryable", "C20_retry_exhaust",
     "C20_retry_returns_own_value", "C20_retry_raises_own_error",
     "C20_s3_retry_masks", "C20_s3_retry_permanent", "C20_s3_retry_exhaust",
     "C20_paged_listing_masks", "C20_paged_listing_permanent",
 ]
-REQ = ["DS.Model.Str", "DS.Gen.GenS3", "DS.Model.Backend", "DS.Model.Range", "DS.Model.Retry", "DS.Model.BackendTrace", "DS.Model.Paged", "DS.Model.C20IO"]
+REQ = ["DS.Model.Str", "DS.Gen.GenS3", "DS.Gen.GenRange", "DS.Model.Backend", "DS.Model.Range", "DS.Model.Retry", "DS.Model.BackendTrace", "DS.Model.Paged", "DS.Model.C20IO"]
 
 MANIFEST_ENTRY = {
     "level_text": "C20_refine_s3 / C20_refine_local / C20_backends_agree proved in Coq for every operation sequence over canonical "
-                  "keys (unbounded length and key space; every S3 prefix; arbitrary foreign objects in the bucket), "
+                  "keys (unbounded length and key space; every S3 prefix; arbitrary foreign objects in the bucket) whose "
+                  "alphabet includes open_seekable + any seek/read program as ONE operation of the history (so it interleaves "
+                  "with writes, CAS writes, overwrites and deletes of the same key), open_file and read_file_with_etag; "
+                  "C20_open_after_history (open_seekable after any history answers from the key's current content), "
+                  "C20_open_ranges_in_objects (every ranged GET of every open names an existing object within its size), "
                   "C20_range_equiv for every content and seek/read program (bytes, positions, negative target = error, every "
                   "Range within 0<=first<=last<size), C20_retry_* for every outcome script (masking within budget, permanent "
                   "errors surface at once, exhaustion after exactly max+1 attempts, nothing swallowed or invented); key "
-                  "mapping, listing Prefix, prefix stripping, code literals and retry defaults are regenerated from the source "
-                  "on every run; models tied to LocalStorageBackend / S3StorageBackend / S3RangeFile / with_s3_retry by "
-                  "differential execution over an in-memory S3; implementation-only oracles search for a failing input",
-    "level_note": "trusted: Coq kernel; translator/gen_s3.py (+ golden AST digests of the hand-modelled functions); the S3 "
+                  "mapping, listing Prefix, prefix stripping, code literals, retry defaults, S3RangeFile's seek / readinto / "
+                  "readall kernels and open_seekable's wiring (key and size source of the reader) are regenerated from the "
+                  "source on every run; models tied to LocalStorageBackend / S3StorageBackend / S3RangeFile / with_s3_retry by "
+                  "differential execution over an in-memory S3 through one or two backend instances; implementation-only "
+                  "oracles search for a failing input",
+    "level_note": "trusted: Coq kernel; translator/gen_s3.py, translator/gen_range.py (+ golden AST digests of the hand-modelled "
+                  "functions); a reader is used within one operation (the object does not change while it is read); the CAS "
+                  "writer is modelled only as used correctly in a sequential history (tag just read); the S3 "
                   "object-store model (strong consistency, GET/HEAD/PUT/DELETE/list-by-string-prefix, NoSuchKey/404) as "
                   "implemented by harness/lib/fakes3.py; local theorem assumes no key is a directory of another key and no "
                   "'.'/'..'/empty segments (path normalisation is C17); exists() is compared on exact keys only (the "
                   "property's wording): exists(<directory>) is True locally and False on S3 without a trailing '/'; "
-                  "BufferedReader is covered by oracles only; faults inside a paginated listing are modelled (Model/Paged.v, theorem + correspondence), "
+                  "BufferedReader is covered by oracles only (its ranged GETs are judged in range, not predicted); faults inside a paginated listing are modelled (Model/Paged.v, theorem + correspondence), "
                   "faults inside other multi-request operations (exists('dir/'), open_seekable) by oracles only",
-    "technique": "Coq refinement proofs (simulation + induction over operation lists) over translator-regenerated kernels + "
-                 "differential correspondence against real backends over an in-memory S3",
+    "technique": "Coq refinement proofs (simulation + induction over operation lists whose alphabet includes open_seekable with "
+                 "a seek/read program) over translator-regenerated kernels + differential correspondence against real "
+                 "backends (one or two instances) over an in-memory S3",
     "design_ref": "DESIGN.md section 5 C20",
 }
 
@@ -84,7 +111,11 @@ DIRS = ["", "data", "data2", "dat", "metadata", "metadata/manifests", "metadata/
 CONTENTS = [b"", b"a", b"bc", b"xyz1"]
 PREFIXES = [("", []), ("p", []), ("wh/t1", [("wh/t10/data/y", b"o"), ("wh/t1", b"s"), ("zz", b"")]),
             ("wh/t1/", [("wh/t10/data/x", b"o"), ("wh/t1data/x", b"q")]), ("/lead//", [("lead/data/x", b"n")])]
-OPS = ["Write", "Read", "Exists", "ListDir", "Delete", "Size", "Mtime"]
+OPS = ["Write", "Read", "Exists", "ListDir", "Delete", "Size", "Mtime", "Open", "Stream", "WriteCas", "ReadTag"]
+OP_WEIGHTS = [5, 3, 3, 4, 3, 2, 1, 5, 1, 2, 1]
+# seek/read programs run on the reader an Open operation obtains (contents are 0..4 bytes long)
+PROG_OFFS = [-5, -2, -1, 0, 1, 2, 3, 4, 5, 7]
+PROG_READS = [0, 1, 2, 3, 5]
 
 
 # ======================================================================================== plumbing
@@ -132,6 +163,8 @@ def err_kind(e: BaseException) -> Tuple[str, ...]:
         return ("err", "NotDir")
     if isinstance(e, ClientError):
         return ("err", "ClientErr")
+    if type(e).__name__ == "CASConflictError":
+        return ("err", "Conflict")
     return ("exc", type(e).__name__)
 
 
@@ -158,9 +191,86 @@ def apply_op(be: Any, op: Tuple[Any, ...], local_root: Optional[str] = None) -> 
         if name == "Mtime":
             float(be.get_modified_time(path))
             return ("unit",)
+        if name == "Open":
+            # open_seekable() on THIS backend instance, then a seek/read program on what it returned: through the
+            # BufferedReader ("buf") or on the raw reader underneath it ("raw": S3RangeFile / io.FileIO)
+            f = be.open_seekable(path)
+            try:
+                raw = op[3] == "raw"
+                obs, final = run_reader(f.raw if raw else f, op[2], raw=raw)
+            finally:
+                f.close()
+            return ("opened", tuple(obs), final)
+        if name == "Stream":
+            f = be.open_file(path)
+            try:
+                return ("bytes", bytes(f.read()))
+            finally:
+                f.close()
+        if name == "ReadTag":
+            return ("bytes", bytes(be.read_file_with_etag(path)[0]))
+        if name == "WriteCas":
+            # the compare-and-swap writer, used correctly: current tag (or create-if-absent), then the conditional write;
+            # a backend without CAS writes plainly
+            if be.supports_cas:
+                try:
+                    tag = be.read_file_with_etag(path)[1]
+                except FileNotFoundError:
+                    tag = None
+                be.write_file_cas(path, op[2], tag)
+            else:
+                be.write_file(path, op[2])
+            return ("unit",)
     except Exception as e:  # noqa: BLE001 - the error kind IS the observation
         return err_kind(e)
     raise ValueError(name)
+
+
+def gen_prog(rng, maxlen: int = 5) -> Tuple[Tuple[Any, ...], ...]:
+    prog: List[Tuple[Any, ...]] = []
+    for _ in range(rng.randint(0, maxlen)):
+        c = rng.random()
+        if c < 0.45:
+            prog.append(("Seek", rng.choice(PROG_OFFS), rng.choice(["SeekSet", "SeekCur", "SeekEnd"]) if rng.random() < 0.95 else "SeekBad"))
+        elif c < 0.75:
+            prog.append(("ReadInto", rng.choice(PROG_READS)))
+        elif c < 0.9:
+            prog.append(("ReadAll",))
+        else:
+            prog.append(("Tell",))
+    return tuple(prog)
+
+
+def gen_op(rng, keys: List[str], dirs: List[str], weights: Optional[List[int]] = None) -> Tuple[Any, ...]:
+    name = rng.choices(OPS, weights=weights or OP_WEIGHTS)[0]
+    if name == "ListDir":
+        return (name, rng.choice(dirs))
+    if name in ("Write", "WriteCas"):
+        return (name, rng.choice(keys), rng.choice(CONTENTS))
+    if name == "Open":
+        return (name, rng.choice(keys), gen_prog(rng), rng.choice(["buf", "raw"]))
+    return (name, rng.choice(keys))
+
+
+def ref_file(data: bytes, prog) -> Tuple[Any, ...]:
+    """What a file holding `data` answers to a seek/read program, from the property text: bytes and positions of
+    a plain file, a negative target position is an error (and leaves the position alone)."""
+    pos, out = 0, []
+    for op in prog:
+        if op[0] == "Seek":
+            base = {"SeekSet": 0, "SeekCur": pos, "SeekEnd": len(data)}.get(op[2])
+            if base is None or base + op[1] < 0:
+                out.append(("err",))
+            else:
+                pos = base + op[1]
+                out.append(("pos", pos))
+        elif op[0] == "Tell":
+            out.append(("pos", pos))
+        else:
+            d = data[pos:] if op[0] == "ReadAll" else data[pos:pos + op[1]]
+            pos += len(d)
+            out.append(("data", d))
+    return ("opened", tuple(out), pos)
 
 
 def model_obs(o: Any) -> Tuple[Any, ...]:
@@ -180,7 +290,19 @@ def model_obs(o: Any) -> Tuple[Any, ...]:
             return ("sizedir",)
         if o.name == "PErr":
             return ("err", o.args[0].name)
+        if o.name == "POpened":
+            return ("opened", tuple(model_sobs(x) for x in o.args[0]), o.args[1])
     raise ValueError(f"unexpected model observation {o!r}")
+
+
+def model_sobs(o: Any) -> Tuple[Any, ...]:
+    if o.name == "PPos":
+        return ("pos", o.args[0])
+    if o.name == "PRErr":
+        return ("err",)
+    if o.name == "PStr":
+        return ("data", o.args[0].encode("latin-1"))
+    raise ValueError(f"unexpected reader observation {o!r}")
 
 
 def cstr(s: str) -> str:
@@ -191,8 +313,10 @@ def cstr(s: str) -> str:
 def op_coq(op: Tuple[Any, ...], keyfn: str) -> str:
     """keyfn: 'kk' (canonical keys as segment lists) or '' (raw strings)."""
     k = f"({keyfn} {cstr(op[1])})" if keyfn else cstr(op[1])
-    if op[0] == "Write":
-        return f"(Write {k} (lit {cstr(op[2].decode('latin-1'))}))"
+    if op[0] in ("Write", "WriteCas"):
+        return f"({op[0]} {k} (lit {cstr(op[2].decode('latin-1'))}))"
+    if op[0] == "Open":
+        return f"(Open {k} {prog_coq(op[2])})"
     return f"({op[0]} {k})"
 
 
@@ -200,43 +324,63 @@ def foreign_coq(F: List[Tuple[str, bytes]]) -> str:
     return "[" + "; ".join(f"({cstr(k)}, {cstr(v.decode('latin-1'))})" for k, v in F) + "]"
 
 
-def run_local(ctx, ops: List[Tuple[Any, ...]]) -> List[Tuple[Any, ...]]:
+def run_local(ctx, ops: List[Tuple[Any, ...]], hs: Optional[List[int]] = None) -> List[Tuple[Any, ...]]:
+    """hs[i] = which backend INSTANCE (handle) issues operation i; all instances share one directory."""
     from datashard.storage_backend import LocalStorageBackend
     root = tempfile.mkdtemp(prefix="loc-", dir=ctx.scratch)
     try:
-        be = LocalStorageBackend(root)
-        return [apply_op(be, op, local_root=root) for op in ops]
+        bes = [LocalStorageBackend(root) for _ in range(1 + max(hs or [0]))]
+        return [apply_op(bes[hs[i] if hs else 0], op, local_root=root) for i, op in enumerate(ops)]
     finally:
         shutil.rmtree(root, ignore_errors=True)
 
 
-def run_s3(ops: List[Tuple[Any, ...]], raw_prefix: str, foreign: List[Tuple[str, bytes]], page_size: int = 2):
+def req_tuple(r: Dict[str, Any]) -> Tuple[Any, ...]:
+    if r["op"] == "get_object" and r.get("Range"):
+        return ("get_range", r["Key"]) + parse_range(r["Range"])
+    return (r["op"], r.get("Key") if r.get("Key") is not None else r.get("Prefix"), r.get("MaxKeys") == 1)
+
+
+def run_s3(ops: List[Tuple[Any, ...]], raw_prefix: str, foreign: List[Tuple[str, bytes]], page_size: int = 2, hs: Optional[List[int]] = None):
+    """hs[i] = which S3StorageBackend instance issues operation i; all instances share one bucket and prefix."""
     from harness.lib.fakes3 import FakeS3, make_s3_backend
     s3 = FakeS3(page_size=page_size)
     for k, v in foreign:
         s3.seed(k, v)
-    be = make_s3_backend(s3, prefix=raw_prefix)
+    bes = [make_s3_backend(s3, prefix=raw_prefix) for _ in range(1 + max(hs or [0]))]
     out = []
-    traces: List[List[Tuple[str, str, bool]]] = []
-    for op in ops:
+    traces: List[List[Tuple[Any, ...]]] = []
+    bad_ranges: List[Dict[str, Any]] = []
+    for i, op in enumerate(ops):
         s3.clear_log()
-        out.append(apply_op(be, op))
-        traces.append([(r["op"], r.get("Key") if r.get("Key") is not None else r.get("Prefix"), r.get("MaxKeys") == 1) for r in s3.log])
+        before = s3.dump() if op[0] == "Open" else None
+        out.append(apply_op(bes[hs[i] if hs else 0], op))
+        traces.append([req_tuple(r) for r in s3.log])
+        if before is not None:
+            # "requesting only in-range bytes": every ranged GET names an object that exists, within its size
+            for r in s3.log:
+                if r["op"] == "get_object" and r.get("Range"):
+                    a, b = parse_range(r["Range"])
+                    size = len(before[r["Key"]]) if r["Key"] in before else None
+                    if size is None or not (0 <= a <= b < size):
+                        bad_ranges.append({"index": i, "key": r["Key"], "range": [a, b], "object_size": size})
     s3.traces = traces  # type: ignore[attr-defined]
+    s3.bad_ranges = bad_ranges  # type: ignore[attr-defined]
     return out, s3
 
 
 def spec_oracle(ops: List[Tuple[Any, ...]]) -> List[Tuple[Any, ...]]:
-    """The contract as the property states it, on a dict: exact keys, listings confined to the named directory.
+    """The contract as the property states it, on a dict: exact keys, listings confined to the named directory,
+    a reader that behaves like a file holding the key's CURRENT content.
     A leading "/" is the library's table-absolute spelling of the same key ("/data/x.parquet")."""
     st: Dict[str, bytes] = {}
     out: List[Tuple[Any, ...]] = []
     for op in ops:
         n, p = op[0], op[1].lstrip("/")
-        if n == "Write":
+        if n in ("Write", "WriteCas"):
             st[p] = op[2]
             out.append(("unit",))
-        elif n == "Read":
+        elif n in ("Read", "Stream", "ReadTag"):
             out.append(("bytes", st[p]) if p in st else ("err", "NotFound"))
         elif n == "Exists":
             out.append(("bool", p in st))
@@ -249,13 +393,33 @@ def spec_oracle(ops: List[Tuple[Any, ...]]) -> List[Tuple[Any, ...]]:
             out.append(("size", len(st[p])) if p in st else ("err", "NotFound"))
         elif n == "Mtime":
             out.append(("unit",) if p in st else ("err", "NotFound"))
+        elif n == "Open":
+            out.append(ref_file(st[p], op[2]) if p in st else ("err", "NotFound"))
+        else:
+            raise ValueError(n)
     return out
 
 
 # ======================================================================================== backend cases
-def gen_domain_cases(ctx) -> List[Tuple[str, List[Tuple[str, bytes]], List[Tuple[Any, ...]]]]:
+# a case = (raw S3 prefix, foreign objects, operations, handle of each operation)
+Case = Tuple[str, List[Tuple[str, bytes]], List[Tuple[Any, ...]], List[int]]
+PROBE_PROGS = [(("Seek", 0, "SeekEnd"), ("Seek", -1, "SeekCur"), ("ReadInto", 5), ("Tell",)),
+               (("ReadInto", 1), ("Seek", -2, "SeekEnd"), ("ReadAll",), ("Seek", -1, "SeekSet")),
+               (("ReadAll",), ("Seek", 1, "SeekSet"), ("ReadInto", 2)),
+               ()]
+
+
+def gen_handles(rng, n: int) -> List[int]:
+    """Which backend instance issues each operation: one instance throughout, or two instances over the same store
+    (two processes / a writer and a scanner), switching at random."""
+    if rng.random() < 0.5:
+        return [0] * n
+    return [rng.randrange(2) for _ in range(n)]
+
+
+def gen_domain_cases(ctx) -> List[Case]:
     rng = ctx.rng
-    cases = []
+    cases: List[Case] = []
     # enumerated: every ordered pair of keys x every directory, a fixed probe sequence
     pairs = list(itertools.product(KEYS, KEYS))
     if ctx.tier == "quick":
@@ -265,22 +429,22 @@ def gen_domain_cases(ctx) -> List[Tuple[str, List[Tuple[str, bytes]], List[Tuple
             if ctx.tier == "quick" and (i + j) % 2:
                 continue
             pfx, F = PREFIXES[(i + j) % len(PREFIXES)]
-            ops = [("Write", k1, CONTENTS[(i + j) % 4]), ("Write", k2, CONTENTS[(i + 1) % 4]), ("ListDir", d), ("Exists", k1),
-                   ("Delete", k1), ("ListDir", d), ("Exists", k1), ("Size", k2), ("Read", k1), ("Read", k2), ("Mtime", k1)]
-            cases.append((pfx, F, ops))
-    # random
-    for _ in range(500 if ctx.tier == "quick" else 2500):
+            pg = PROBE_PROGS[(i + j) % len(PROBE_PROGS)]
+            mode = "raw" if (i + j) % 3 == 0 else "buf"
+            ops = [("Write", k1, CONTENTS[(i + j) % 4]), ("Write", k2, CONTENTS[(i + 1) % 4]), ("ListDir", d), ("Exists", k1), ("Open", k1, pg, mode),
+                   ("Delete", k1), ("ListDir", d), ("Exists", k1), ("Size", k2), ("Read", k1), ("Read", k2), ("Mtime", k1),
+                   ("Open", k1, pg, mode), ("Open", k2, pg, mode), ("Stream", k1), ("Stream", k2),
+                   ("Write" if (i + j) % 2 else "WriteCas", k2, CONTENTS[(i + 2) % 4]), ("Open", k2, pg, mode), ("ReadTag", k1)]
+            cases.append((pfx, F, ops, [0] * len(ops) if (i + j) % 4 else [(x * 7 + i) % 2 for x in range(len(ops))]))
+    # random; most operations of a case go to a few "hot" keys, so that one key sees write / overwrite / delete /
+    # open / size / read in many orders on the same backend instance(s)
+    for _ in range(600 if ctx.tier == "quick" else 3000):
         pfx, F = rng.choice(PREFIXES)
+        hot = rng.sample(KEYS, rng.randint(1, 3))
         ops = []
         for _ in range(rng.randint(1, 25)):
-            name = rng.choices(OPS, weights=[6, 3, 3, 4, 2, 2, 1])[0]
-            if name == "ListDir":
-                ops.append((name, rng.choice(DIRS)))
-            elif name == "Write":
-                ops.append((name, rng.choice(KEYS), rng.choice(CONTENTS)))
-            else:
-                ops.append((name, rng.choice(KEYS)))
-        cases.append((pfx, F, ops))
+            ops.append(gen_op(rng, hot if rng.random() < 0.7 else KEYS, DIRS))
+        cases.append((pfx, F, ops, gen_handles(rng, len(ops))))
     return cases
 
 
@@ -295,9 +459,7 @@ def gen_raw_cases(ctx, paths: List[str], n: int) -> List[List[Tuple[Any, ...]]]:
     for _ in range(n):
         ops = []
         for _ in range(rng.randint(1, 14)):
-            name = rng.choices(OPS, weights=[6, 3, 4, 4, 2, 2, 1])[0]
-            p = rng.choice(paths)
-            ops.append((name, p, rng.choice(CONTENTS)) if name == "Write" else (name, p))
+            ops.append(gen_op(rng, paths, paths))
         cases.append(ops)
     return cases
 
@@ -309,10 +471,10 @@ def first_diff(a: List[Any], b: List[Any]) -> Optional[int]:
     return None if len(a) == len(b) else min(len(a), len(b))
 
 
-def judge_domain_case(ctx, pfx: str, F, ops) -> Optional[Dict[str, Any]]:
+def judge_domain_case(ctx, pfx: str, F, ops, hs: Optional[List[int]] = None) -> Optional[Dict[str, Any]]:
     """Implementation-only: local vs S3 vs the dict spec. Returns a failure description or None."""
-    lo = run_local(ctx, ops)
-    s3o, _ = run_s3(ops, pfx, F)
+    lo = run_local(ctx, ops, hs)
+    s3o, s3c = run_s3(ops, pfx, F, hs=hs)
     sp = spec_oracle(ops)
     i = first_diff(lo, s3o)
     which = "backends-differ"
@@ -320,91 +482,158 @@ def judge_domain_case(ctx, pfx: str, F, ops) -> Optional[Dict[str, Any]]:
         i = first_diff(s3o, sp)
         which = "s3-vs-contract"
     if i is None:
+        if s3c.bad_ranges:
+            br = s3c.bad_ranges[0]
+            return {"which": "range-not-in-object", "index": br["index"], "op": list(ops[br["index"]][:2]), "bad_range": br}
         return None
     return {"which": which, "index": i, "op": list(ops[i][:2]), "local": lo[i], "s3": s3o[i], "contract": sp[i]}
 
 
-def shrink_ops(ctx, pfx, F, ops, fails) -> List[Tuple[Any, ...]]:
-    cur = list(ops)
+def shrink_ops(ctx, pfx, F, ops, hs, fails) -> Tuple[List[Tuple[Any, ...]], List[int]]:
+    """Greedy: drop operations (with their handles), then shorten the programs of Open operations, then fold
+    everything onto one handle if the failure survives."""
+    cur = list(zip(ops, hs))
     changed = True
     while changed and len(cur) > 1:
         changed = False
         for i in range(len(cur)):
             cand = cur[:i] + cur[i + 1:]
-            if cand and fails(cand):
+            if cand and fails([c[0] for c in cand], [c[1] for c in cand]):
                 cur = cand
                 changed = True
                 break
-    return cur
+    changed = True
+    while changed:
+        changed = False
+        for i, (o, h) in enumerate(cur):
+            if o[0] != "Open":
+                continue
+            for j in range(len(o[2])):
+                o2 = (o[0], o[1], o[2][:j] + o[2][j + 1:], o[3])
+                cand = cur[:i] + [(o2, h)] + cur[i + 1:]
+                if fails([c[0] for c in cand], [c[1] for c in cand]):
+                    cur, changed = cand, True
+                    break
+            if changed:
+                break
+    if any(h for _, h in cur) and fails([c[0] for c in cur], [0] * len(cur)):
+        cur = [(o, 0) for o, _ in cur]
+    return [c[0] for c in cur], [c[1] for c in cur]
 
 
 def ops_json(ops) -> List[List[Any]]:
-    return [[o[0], o[1]] + ([o[2].decode("latin-1")] if o[0] == "Write" else []) for o in ops]
+    out: List[List[Any]] = []
+    for o in ops:
+        if o[0] in ("Write", "WriteCas"):
+            out.append([o[0], o[1], o[2].decode("latin-1")])
+        elif o[0] == "Open":
+            out.append([o[0], o[1], [list(x) for x in o[2]], o[3]])
+        else:
+            out.append([o[0], o[1]])
+    return out
 
 
 def ops_unjson(js) -> List[Tuple[Any, ...]]:
-    return [(o[0], o[1], o[2].encode("latin-1")) if o[0] == "Write" else (o[0], o[1]) for o in js]
+    out: List[Tuple[Any, ...]] = []
+    for o in js:
+        if o[0] in ("Write", "WriteCas"):
+            out.append((o[0], o[1], o[2].encode("latin-1")))
+        elif o[0] == "Open":
+            out.append((o[0], o[1], tuple(tuple(x) for x in o[2]), o[3]))
+        else:
+            out.append((o[0], o[1]))
+    return out
 
 
-def oracle_backends(ctx, cases) -> Dict[int, Tuple[List, List]]:
+def obs_json(o: Any) -> Any:
+    if isinstance(o, bytes):
+        return o.decode("latin-1")
+    if isinstance(o, (tuple, list)):
+        return [obs_json(x) for x in o]
+    return o
+
+
+def classify_ops_failure(ops, bad: Dict[str, Any]) -> str:
+    key = f"{bad['which']}:{ops[bad['index']][0]}"
+    if ops[bad["index"]][0] == "Open" and bad.get("local") is not None:
+        lk, sk = bad["local"][0], bad["s3"][0]
+        key += ":s3-opens-what-local-cannot" if (lk, sk) == ("err", "opened") else ":s3-cannot-open" if (lk, sk) == ("opened", "err") \
+            else ":reader-bytes-or-positions" if lk == sk == "opened" else ":error-kind"
+    return key
+
+
+def report_ops_violation(ctx, seen_keys, suffix: str, pfx, F, ops, hs, bad) -> None:
+    kind = classify_ops_failure(ops, bad)
+    key = kind + suffix
+    if key in seen_keys:
+        return
+    seen_keys.add(key)
+
+    def same_failure(c, h) -> bool:
+        b = judge_domain_case(ctx, pfx, F, c, h)
+        return b is not None and classify_ops_failure(c, b) == kind
+
+    small, shs = shrink_ops(ctx, pfx, F, ops, hs, same_failure)
+    bad = judge_domain_case(ctx, pfx, F, small, shs) or {}
+    ctx.violation(key, f"prefix={pfx!r} ops={ops_json(small)} handles={shs}: at op {bad.get('index')} {bad.get('op')} local={bad.get('local')} "
+                       f"s3={bad.get('s3')} contract={bad.get('contract')} {bad.get('bad_range') or ''}",
+                  {"kind": "ops", "prefix": pfx, "foreign": [[k, v.decode('latin-1')] for k, v in F], "ops": ops_json(small), "handles": shs,
+                   "detail": obs_json(bad)})
+
+
+def oracle_backends(ctx, cases: List[Case]) -> Dict[int, Tuple[List, List, List]]:
     """Runs every in-domain case on both real backends; reports violations; returns the observations."""
-    seen_keys = set()
-    obs: Dict[int, Tuple[List, List]] = {}
+    seen_keys: set = set()
+    obs: Dict[int, Tuple[List, List, List]] = {}
     nviol = 0
-    for idx, (pfx, F, ops) in enumerate(cases):
-        lo = run_local(ctx, ops)
-        s3o, s3c = run_s3(ops, pfx, F)
+    nopen = nranged = ntwo = 0
+    for idx, (pfx, F, ops, hs) in enumerate(cases):
+        lo = run_local(ctx, ops, hs)
+        s3o, s3c = run_s3(ops, pfx, F, hs=hs)
         obs[idx] = (lo, s3o, s3c.traces)
-        ctx.count(1, ("ops", pfx, repr(ops)))
+        ctx.count(1, ("ops", pfx, repr(ops), tuple(hs)))
+        nopen += sum(1 for o in ops if o[0] == "Open")
+        nranged += sum(1 for tr in s3c.traces for r in tr if r[0] == "get_range")
+        ntwo += 1 if any(hs) else 0
         sp = spec_oracle(ops)
-        if lo == s3o == sp:
+        if lo == s3o == sp and not s3c.bad_ranges:
             continue
         nviol += 1
-        i = first_diff(lo, s3o)
-        which = "backends-differ"
-        if i is None:
-            i = first_diff(s3o, sp)
-            which = "s3-vs-contract"
-        key = f"{which}:{ops[i][0]}"
-        if key in seen_keys:
-            continue
-        seen_keys.add(key)
-        small = shrink_ops(ctx, pfx, F, ops, lambda c: judge_domain_case(ctx, pfx, F, c) is not None)
-        bad = judge_domain_case(ctx, pfx, F, small) or {}
-        ctx.violation(key, f"prefix={pfx!r} ops={ops_json(small)}: at op {bad.get('index')} {bad.get('op')} local={bad.get('local')} "
-                           f"s3={bad.get('s3')} contract={bad.get('contract')}",
-                      {"kind": "ops", "prefix": pfx, "foreign": [[k, v.decode('latin-1')] for k, v in F], "ops": ops_json(small), "detail": bad})
+        bad = judge_domain_case(ctx, pfx, F, ops, hs)
+        if bad:
+            report_ops_violation(ctx, seen_keys, "", pfx, F, ops, hs, bad)
     ctx.stats["backend_domain_cases"] = len(cases)
     ctx.stats["backend_domain_cases_violating"] = nviol
+    ctx.stats["backend_open_seekable_operations"] = nopen
+    ctx.stats["backend_open_ranged_gets_checked"] = nranged
+    ctx.stats["backend_cases_on_two_instances"] = ntwo
     # the same keys spelled table-absolute ("/data/x"), as manifests spell data file paths
     nabs = 0
-    for idx, (pfx, F, ops) in enumerate(cases):
+    for idx, (pfx, F, ops, hs) in enumerate(cases):
         if idx % 4:
             continue
         aops = [(o[0], ("/" + o[1]) if ctx.rng.random() < 0.5 else o[1]) + tuple(o[2:]) for o in ops]
         nabs += 1
-        ctx.count(1, ("ops-abs", pfx, repr(aops)))
-        bad = judge_domain_case(ctx, pfx, F, aops)
+        ctx.count(1, ("ops-abs", pfx, repr(aops), tuple(hs)))
+        bad = judge_domain_case(ctx, pfx, F, aops, hs)
         if bad:
-            key = f"{bad['which']}:{aops[bad['index']][0]}:leading-slash"
-            if key not in seen_keys:
-                seen_keys.add(key)
-                small = shrink_ops(ctx, pfx, F, aops, lambda c: judge_domain_case(ctx, pfx, F, c) is not None)
-                bad = judge_domain_case(ctx, pfx, F, small) or {}
-                ctx.violation(key, f"prefix={pfx!r} ops={ops_json(small)}: {bad}",
-                              {"kind": "ops", "prefix": pfx, "foreign": [[k, v.decode('latin-1')] for k, v in F], "ops": ops_json(small), "detail": bad})
+            report_ops_violation(ctx, seen_keys, ":leading-slash", pfx, F, aops, hs, bad)
     ctx.stats["backend_domain_cases_leading_slash"] = nabs
     return obs
 
 
-def corr_backends(ctx, cases, impl_obs) -> None:
+def strip_ranged(tr: List[Tuple[Any, ...]]) -> List[Tuple[Any, ...]]:
+    return [r for r in tr if r[0] != "get_range"]
+
+
+def corr_backends(ctx, cases: List[Case], impl_obs) -> None:
     exprs = []
-    for pfx, F, ops in cases:
+    for pfx, F, ops, _hs in cases:
         exprs.append(f"case3 {cstr(pfx)} {foreign_coq(F)} [" + "; ".join(op_coq(o, "kk") for o in ops) + "]")
     got = ceval(exprs, chunk=120)
     bad_local, bad_s3, bad_thm = [], [], []
     outside = 0
-    for idx, ((pfx, F, ops), g) in enumerate(zip(cases, got)):
+    for idx, ((pfx, F, ops, hs), g) in enumerate(zip(cases, got)):
         spec_m, local_m, s3_m, wf, pf, fo = g
         spec_m, local_m, s3_m = [model_obs(o) for o in spec_m], [model_obs(o) for o in local_m], [model_obs(o) for o in s3_m]
         lo, s3o, _tr = impl_obs[idx]
@@ -414,31 +643,44 @@ def corr_backends(ctx, cases, impl_obs) -> None:
             bad_thm.append({"prefix": pfx, "ops": ops_json(ops), "note": "model runs differ inside the theorem's domain"})
         i = first_diff(lo, local_m)
         if i is not None:
-            bad_local.append({"prefix": pfx, "ops": ops_json(ops), "index": i, "impl": lo[i], "model": local_m[i] if i < len(local_m) else None})
+            bad_local.append({"prefix": pfx, "ops": ops_json(ops), "handles": hs, "index": i, "impl": obs_json(lo[i]),
+                              "model": obs_json(local_m[i]) if i < len(local_m) else None})
         i = first_diff(s3o, s3_m)
         if i is not None:
-            bad_s3.append({"prefix": pfx, "foreign": [k for k, _ in F], "ops": ops_json(ops), "index": i, "impl": s3o[i], "model": s3_m[i] if i < len(s3_m) else None})
+            bad_s3.append({"prefix": pfx, "foreign": [k for k, _ in F], "ops": ops_json(ops), "handles": hs, "index": i, "impl": obs_json(s3o[i]),
+                           "model": obs_json(s3_m[i]) if i < len(s3_m) else None})
     ctx.correspondence("backend-local", len(cases), bad_local)
     ctx.correspondence("backend-s3", len(cases), bad_s3)
     ctx.correspondence("backend-theorem-domain", len(cases), bad_thm)
     ctx.stats["backend_cases_outside_theorem_domain"] = outside
-    # which requests each operation issued, and how many times (with_s3_retry around a consistent store)
-    exprs = [f"trace_case 2 {cstr(pfx)} {foreign_coq(F)} [" + "; ".join(op_coq(o, "kk") for o in ops) + "]" for pfx, F, ops in cases]
+    # which requests each operation issued, and how many times (with_s3_retry around a consistent store); for an Open
+    # on the raw reader also every ranged GET (first, last); through the BufferedReader the ranged GETs depend on
+    # CPython's buffering and are judged by the oracle only (in range of the object)
+    exprs = [f"trace_case 2 {cstr(pfx)} {foreign_coq(F)} [" + "; ".join(op_coq(o, "kk") for o in ops) + "]" for pfx, F, ops, _hs in cases]
     got = ceval(exprs, chunk=120)
     bad_tr = []
     nreq = 0
-    for idx, ((pfx, F, ops), g) in enumerate(zip(cases, got)):
+    for idx, ((pfx, F, ops, hs), g) in enumerate(zip(cases, got)):
         impl_tr = [[tuple(r) for r in tr] for tr in impl_obs[idx][2]]
-        model_tr = [[(r.args[0], r.args[1], r.args[2]) for r in tr] for tr in g]
+        model_tr = [[model_req(r) for r in tr] for tr in g]
+        for j, o in enumerate(ops):
+            if o[0] == "Open" and o[3] == "buf" and j < len(model_tr):
+                impl_tr[j], model_tr[j] = strip_ranged(impl_tr[j]), strip_ranged(model_tr[j])
         nreq += sum(len(x) for x in impl_tr)
         i = first_diff(impl_tr, model_tr)
         if i is not None:
-            bad_tr.append({"prefix": pfx, "ops": ops_json(ops), "index": i, "impl": impl_tr[i], "model": model_tr[i] if i < len(model_tr) else None})
+            bad_tr.append({"prefix": pfx, "ops": ops_json(ops), "handles": hs, "index": i, "impl": impl_tr[i], "model": model_tr[i] if i < len(model_tr) else None})
     ctx.correspondence("backend-s3-requests", len(cases), bad_tr)
     ctx.stats["s3_requests_compared"] = nreq
     if cases:
-        ctx.sample({"backend_case": {"prefix": cases[0][0], "ops": ops_json(cases[0][2]), "local": [list(map(str, o)) for o in impl_obs[0][0]],
-                                     "s3_requests": impl_obs[0][2]}})
+        ctx.sample({"backend_case": {"prefix": cases[0][0], "ops": ops_json(cases[0][2]), "handles": cases[0][3],
+                                     "local": [obs_json(o) for o in impl_obs[0][0]], "s3_requests": impl_obs[0][2]}})
+
+
+def model_req(r: Any) -> Tuple[Any, ...]:
+    if r.name == "PReqR":
+        return ("get_range", r.args[0], r.args[1], r.args[2])
+    return (r.args[0], r.args[1], r.args[2])
 
 
 def corr_raw(ctx) -> None:
@@ -449,12 +691,13 @@ def corr_raw(ctx) -> None:
     got = ceval(exprs, chunk=120)
     bad = []
     for (pf, ops), g in zip(s3_cases, got):
-        impl, _ = run_s3(ops, pf[0], pf[1])
+        hs = gen_handles(ctx.rng, len(ops))
+        impl, _ = run_s3(ops, pf[0], pf[1], hs=hs)
         m = [model_obs(o) for o in g]
         i = first_diff(impl, m)
         ctx.count(1, ("raw-s3", pf[0], repr(ops)))
         if i is not None:
-            bad.append({"prefix": pf[0], "ops": ops_json(ops), "index": i, "impl": impl[i], "model": m[i]})
+            bad.append({"prefix": pf[0], "ops": ops_json(ops), "handles": hs, "index": i, "impl": obs_json(impl[i]), "model": obs_json(m[i])})
     ctx.correspondence("backend-s3-raw-strings", len(s3_cases), bad)
 
     lcases = gen_raw_cases(ctx, RAW_LOCAL_PATHS, n)
@@ -469,7 +712,7 @@ def corr_raw(ctx) -> None:
         i = first_diff(impl, m)
         ctx.count(1, ("raw-local", repr(ops)))
         if i is not None:
-            bad.append({"ops": ops_json(ops), "index": i, "impl": impl[i], "model": m[i]})
+            bad.append({"ops": ops_json(ops), "index": i, "impl": obs_json(impl[i]), "model": obs_json(m[i])})
         s3o, _ = run_s3(ops, "p", [])
         j = first_diff(impl, s3o)
         if j is not None:
@@ -1038,16 +1281,16 @@ def oracle_s3_faults(ctx) -> None:
     for _ in range(n):
         pfx, F = rng.choice(PREFIXES)
         ops = []
+        hot = rng.sample(KEYS, 2)
         for _ in range(rng.randint(1, 12)):
-            name = rng.choices(OPS, weights=[7, 3, 3, 5, 2, 2, 1])[0]
-            ops.append((name, rng.choice(DIRS)) if name == "ListDir" else (name, rng.choice(KEYS), rng.choice(CONTENTS)) if name == "Write" else (name, rng.choice(KEYS)))
+            ops.append(gen_op(rng, hot if rng.random() < 0.6 else KEYS, DIRS, weights=[7, 3, 3, 5, 2, 2, 1, 4, 1, 0, 1]))
         plans = []
         for _op in ops:
             k = rng.choice([0, 0, 1, 2, 3, 5])
             plan: List[Any] = [None] * 10
             # a read/stat of a missing key uses all max_retries+1 attempts by itself (FileNotFoundError is retried):
             # keep its last attempt fault-free, otherwise the fault is not "within the budget"
-            span = 5 if _op[0] in ("Read", "Size", "Mtime") else 10
+            span = 5 if _op[0] in ("Read", "Size", "Mtime", "Open", "Stream", "ReadTag") else 10
             for pos in rng.sample(range(span), k):
                 plan[pos] = [rng.choice(["before", "after"]), rng.choice(TRANSIENT_CODES)]
             plans.append(plan)
@@ -1310,13 +1553,16 @@ def corr_paged(ctx) -> None:
 
 # ======================================================================================== driver
 def run(ctx) -> None:
-    ctx.rule = ("backends: enumerated (key pair x directory probe sequences) + random operation sequences (1..25 ops) over 13 keys with "
-                "sibling-prefix names, 11 directories, 5 S3 prefixes with foreign objects, run on LocalStorageBackend, S3StorageBackend "
-                "over fakes3 and the Coq models; range: all seek/read programs up to a length bound + random ones on sizes 0,1,2,1MiB+1, "
+    ctx.rule = ("backends: enumerated (key pair x directory probe sequences) + random operation sequences (1..25 ops, most on 1..3 hot "
+                "keys) over 13 keys with sibling-prefix names, 11 directories, 5 S3 prefixes with foreign objects; operations = write, "
+                "CAS write, read, read+etag, exists, list, delete, size, mtime, open_file, open_seekable + seek/read program of length "
+                "0..5 (buffered or raw reader); each operation issued by one of up to two backend instances over the same store; run on "
+                "LocalStorageBackend, S3StorageBackend over fakes3 and the Coq models; range: all seek/read programs up to a length bound + random ones on sizes 0,1,2,1MiB+1, "
                 "raw and through BufferedReader, against a real local file; retry: all 21844 outcome scripts of length<=7; a case is "
                 "distinct by its full (prefix, operation list) / (size, program) / script")
     ctx.trusted_base += [
         "translator/gen_s3.py (Python ast -> Gallina for the S3 string kernels and literal tables; golden AST digests for hand-modelled functions)",
+        "translator/gen_range.py (Python ast -> Gallina for S3RangeFile's integer kernels and open_seekable's wiring; shape checks of the glue)",
         "harness/lib/fakes3.py as the model of a strongly consistent S3 (GET/HEAD/PUT/DELETE/list by string prefix; NoSuchKey / 404)",
         "harness: harness/props/c20.py, harness/lib/coqbuild.py (vm_compute evaluation of the models on generated cases)",
     ]
@@ -1324,10 +1570,11 @@ def run(ctx) -> None:
         "S3 is strongly consistent and answers GET/HEAD of a missing key with NoSuchKey/404 (AWS S3 behaviour since 2020)",
         "local theorem: no key is a directory of another key; segments non-empty, without '/', not '.' or '..' (C17 covers normalisation)",
         "exists() is compared on exact keys only, as the property states",
-        "the object read through S3RangeFile does not change during the read (size fixed at open)",
+        "the object read through S3RangeFile does not change during the read (size fixed at open): a reader lives within one operation of a history",
+        "the CAS writer is exercised as used correctly in a sequential history (write_file_cas with the tag read_file_with_etag just returned)",
     ]
     vs = quiet_library()
-    ctx.proofs(THEOREMS, gen_files=["GenS3.v"])
+    ctx.proofs(THEOREMS, gen_files=["GenS3.v", "GenRange.v"])
     ctx.allow_axioms([])
     # ---- implementation-only oracles (run even when the proofs are broken)
     import time as _time
@@ -1364,7 +1611,7 @@ def replay(ctx, payload) -> int:
     if kind == "ops":
         ops = ops_unjson(case["ops"])
         F = [(k, v.encode("latin-1")) for k, v in case.get("foreign", [])]
-        bad = judge_domain_case(ctx, case["prefix"], F, ops)
+        bad = judge_domain_case(ctx, case["prefix"], F, ops, case.get("handles"))
         print("replay:", "STILL FAILS " + repr(bad) if bad else "passes now")
         return 1 if bad else 0
     if kind == "range":
